@@ -20,6 +20,8 @@ pub mod c06;
 #[cfg(kani)]
 pub mod c06_gen;
 #[cfg(kani)]
+pub mod c01b;
+#[cfg(kani)]
 pub mod c13;
 #[cfg(kani)]
 pub mod c03;
@@ -27,6 +29,8 @@ pub mod c03;
 pub mod c04;
 #[cfg(all(kani, feature = "half"))]
 pub mod c02;
+#[cfg(all(kani, feature = "half"))]
+pub mod c01t;
 #[cfg(all(kani, feature = "half"))]
 pub mod c07;
 #[cfg(all(kani, feature = "half"))]
